@@ -68,7 +68,11 @@ def check_snap(ctx, recs, rng):
         meta.append((utf8_of_len(r["idlen"], rng), utf8_of_len(r["namelen"], rng), r["extra"]))
     if not recs:
         return
-    vf, infos = enc_qcow2.build_with_snapshots(_base_img(), [_base_img() for _ in recs], cluster_bits=9, K=1, snap_meta=meta)
+    # the active image has been resized since the snapshots were taken: its stored size differs from theirs
+    active = _base_img()
+    if rng.random() < 0.6:
+        active = dict(active, size=2, l2={0: {"t": "N", "h": 1, "sub": []}, 1: {"t": "ZP", "h": 0, "sub": []}})
+    vf, infos = enc_qcow2.build_with_snapshots(active, [_base_img() for _ in recs], cluster_bits=9, K=1, snap_meta=meta)
     q = QCow2(vf)
     ctx.case(key=("snap", repr(recs)), nontrivial=True)
     try:
@@ -86,20 +90,42 @@ def check_snap(ctx, recs, rng):
             ok = False
     if not ok:
         ctx.violation({"sub": "qcow2-snapshots", "fail": "exposed-differs"}, {"recs": recs, "want": [w[:3] for w in want], "got": [g[:3] for g in got]})
+        return
+    # opening (and reading) the snapshots leaves what the active image exposes as it is stored
+    before = (int(q.size), int(q.header.size), int(q.header.l1_table_offset), int(q.header.l1_size), int(q.header.nb_snapshots))
+    for s in snaps:
+        try:
+            o = s.open()
+            o.read(512)
+        except Exception:  # noqa: BLE001   (what a snapshot stream serves is C07's business)
+            pass
+    after = (int(q.size), int(q.header.size), int(q.header.l1_table_offset), int(q.header.l1_size), int(q.header.nb_snapshots))
+    stored = (active["size"] * 512, active["size"] * 512, infos[0]["l1_offset"], infos[0]["l1_size"], len(recs))
+    if before != stored or after != stored:
+        ctx.violation({"sub": "qcow2-snapshots", "fail": "exposed-differs", "field": "active-image-after-opening-snapshots"},
+                      {"recs": recs, "stored": stored, "before": before, "after": after})
+
+
+# order-preserving embeddings of the abstract sequence numbers into the 64-bit unsigned field
+SEQ_EMBEDDINGS = [lambda s: s + (1 << 33 if s == 7 else 0), lambda s: s + (1 << 63), lambda s: (1 << 64) - 1 - (7 - s), lambda s: s << 60,
+                  lambda s: ((1 << 63) - 4 + s) if s else 0]
 
 
 def check_seq(ctx, seqs):
     from dissect.hypervisor.disk.vhdx import VHDX
-    vf, _ = enc_vhdx.build([(enc_vhdx.ST_FULL, 0)], block_size=1 << 20, sector_size=512, disk_size=1 << 20, seqs=tuple(s + (1 << 33 if s == 7 else 0) for s in seqs))
-    b = bytearray(vf.peek_bytes(0, 3 << 20))
-    b[65536 + 48:65536 + 64] = b"\x01" * 16      # log guid of copy 1
-    b[131072 + 48:131072 + 64] = b"\x02" * 16    # log guid of copy 2
-    v = VHDX(io.BytesIO(bytes(b)))
-    used = 1 if bytes(v.header.log_guid) == b"\x01" * 16 else 2
-    ctx.case(key=("seq", tuple(seqs)), nontrivial=True)
-    real = [s + (1 << 33 if s == 7 else 0) for s in seqs]
-    if real[used - 1] != max(real):
-        ctx.violation({"sub": "vhdx-header-pair", "fail": "stale-copy-used"}, {"seqs": real, "used": used})
+    for k, emb in enumerate(SEQ_EMBEDDINGS):
+        real = [emb(s) for s in seqs]
+        vf, _ = enc_vhdx.build([(enc_vhdx.ST_FULL, 0)], block_size=1 << 20, sector_size=512, disk_size=1 << 20, seqs=tuple(real))
+        b = bytearray(vf.peek_bytes(0, 3 << 20))
+        b[65536 + 48:65536 + 64] = b"\x01" * 16      # log guid of copy 1
+        b[131072 + 48:131072 + 64] = b"\x02" * 16    # log guid of copy 2
+        v = VHDX(io.BytesIO(bytes(b)))
+        used = 1 if bytes(v.header.log_guid) == b"\x01" * 16 else 2
+        ctx.case(key=("seq", tuple(seqs), k), nontrivial=True)
+        if real[used - 1] != max(real):
+            ctx.violation({"sub": "vhdx-header-pair", "fail": "stale-copy-used"}, {"seqs": real, "used": used})
+        if int(v.header.sequence_number) != max(real):
+            ctx.violation({"sub": "vhdx-header-pair", "fail": "exposed-differs", "field": "sequence_number"}, {"seqs": real, "exposed": int(v.header.sequence_number)})
 
 
 # ---------------------------------------------------------------------------- B: field sweeps, facts judged by TLC
@@ -230,7 +256,13 @@ def facts_vmdk(rng):
     d2 = DiskDescriptor.parse(str(d))
     f.append(["str-roundtrip", repr((sorted(d.attr.items()), sorted(d.ddb.items()), [(e.access_mode, e.sectors, e.type, e.filename) for e in d.extents])),
               repr((sorted(d2.attr.items()), sorted(d2.ddb.items()), [(e.access_mode, e.sectors, e.type, e.filename) for e in d2.extents]))])
-    # embedded descriptor of a hosted sparse extent (descriptor_offset / descriptor_size)
+    # embedded descriptor of a hosted sparse extent (descriptor_offset / descriptor_size); it may fill its sectors to the last byte
+    if rng.random() < 0.5:
+        body = text.rstrip("\n")
+        padn = (-len(body.encode("utf-8")) - 1) % 512
+        head, rest = body.split("\n", 1)
+        text = head + "\n" + "#" * padn + "\n" + rest     # (a comment line takes up the slack; the last byte is the closing quote of the last entry)
+        assert len(text.encode("utf-8")) % 512 == 0
     vf, info = enc_vmdk.build_hosted([("D", 1)], [True], capacity=8, grain=8, gtes=4, desc=text, max_pos=2)
     v = VMDK(vf)
     emb = v.disks[0].descriptor
